@@ -360,7 +360,7 @@ impl Scenario for RealSockSim {
                     }
                 };
                 let server = tokio::task::spawn_local({
-                    let f = super::srvfault::run_acceptor_server(acc, case.proto, tls_cfg, ctx, exec.clone());
+                    let f = super::srvfault::run_acceptor_server(acc, case.proto, tls_cfg, ctx, exec.clone(), false);
                     async move { f.await.map_err(|e| e.to_string()) }
                 });
                 let mut good: Vec<(u32, Result<(), String>)> = vec![];
